@@ -185,3 +185,10 @@ Definition res_eqb {A} (e : A -> A -> bool) (r : res A) (expected : A + string) 
   | Raise x, inr y => String.eqb x y
   | _, _ => false
   end.
+
+(* l.pop() / l.pop(-1): the last element and the list without it *)
+Definition list_pop_last {A} (l : list A) : res (A * list A) :=
+  match rev l with
+  | [] => Raise "IndexError"
+  | x :: r => Ok (x, rev r)
+  end.
